@@ -1125,6 +1125,35 @@ def _has_quantifier(node):
     return False
 
 
+def _quant_readings(node, pol=-1, out=None):
+    """How each bounded quantifier of a hypothesis (pol=-1) or goal (pol=+1) is read:
+    'forall' needs instantiation, 'exists' gets a skolem constant."""
+    out = set() if out is None else out
+    if isinstance(node, ast.UnaryOp) and isinstance(node.op, ast.Not):
+        _quant_readings(node.operand, -pol, out)
+    elif isinstance(node, ast.BoolOp):
+        for v in node.values:
+            _quant_readings(v, pol, out)
+    elif isinstance(node, ast.IfExp):
+        _quant_readings(node.test, 0, out)
+        _quant_readings(node.body, pol, out)
+        _quant_readings(node.orelse, pol, out)
+    elif isinstance(node, ast.Call) and isinstance(node.func, ast.Name) and node.func.id in ("all", "any") and node.args and isinstance(node.args[0], ast.GeneratorExp):
+        which = node.func.id
+        if pol == 0:
+            out.update(("forall", "exists"))
+        elif (which == "all") == (pol == -1):
+            out.add("forall")
+        else:
+            out.add("exists")
+        _quant_readings(node.args[0].elt, pol, out)
+    else:
+        for ch in ast.iter_child_nodes(node):
+            if _has_quantifier(ch):
+                _quant_readings(ch, 0, out)
+    return out
+
+
 def as_lazy_forall(I, conj, frame):
     """A hypothesis conjunct that contains bounded quantifiers becomes a closure q(t): the
     conjunct with every universally-read quantifier instantiated at the single term t (sound:
@@ -1132,6 +1161,8 @@ def as_lazy_forall(I, conj, frame):
     itp = _itp()
     if not _has_quantifier(conj):
         return None
+    if "forall" not in _quant_readings(conj, -1):
+        return None  # only existentially read quantifiers: assumed eagerly with skolem constants
     snap = snapshot_locals(frame)
     base = itp.Frame(frame.fn, snap, frame.globals, frame.info)
 
